@@ -112,7 +112,23 @@ func (st *State) stdlibSpecial(fn *types.Func, recv *Val, args []Val, call *ast.
 		note()
 		a, b := args[0], args[1]
 		eq := fc.fresh("byteseq", "Bool")
-		st.assume(sEq(eq, sAnd(sEq(a.length(), b.length()), fmt.Sprintf("(forall ((g_k Int)) (=> (and (<= 0 g_k) (< g_k %s)) (= %s %s)))", a.length(), st.elemTerm(a, "g_k"), st.elemTerm(b, "g_k")))))
+		// absolute-index forms over each operand (E-matching friendly); both are equivalent to element-wise equality
+		absForm := func(x, y Val) string {
+			xoff := x.off()
+			if x.K == KString {
+				xoff = x.soff()
+			}
+			var xsel string
+			if x.K == KString {
+				xsel = sSel(x.content(), "g_k")
+			} else {
+				h := st.heapGet("E!uint8!", "(Array Int (Array Int Int))")
+				xsel = sSel(sSel(h, x.arr()), "g_k")
+			}
+			return fmt.Sprintf("(forall ((g_k Int)) (=> (and (<= %s g_k) (< g_k %s)) (= %s %s)))", xoff, sAdd(xoff, x.length()), xsel, st.elemTerm(y, sSub("g_k", xoff)))
+		}
+		st.assume(sEq(eq, sAnd(sEq(a.length(), b.length()), absForm(a, b))))
+		st.assume(sImp(eq, absForm(b, a)))
 		return []Val{vBool(eq)}, true
 	case "strconv.Itoa", "strconv.FormatInt", "strconv.FormatUint":
 		note()
